@@ -270,7 +270,7 @@ def run(report, p):
         adders = set()
         all_guaranteed = True
         for call, tg in p.calls[sp.qual]:
-            if any(t.endswith("_append_patterns_list") for t in tg) and call.args:
+            if any(".MHLIgnoreSpec._append" in t for t in tg) and call.args:
                 a = call.args[0]
                 a0 = norm(a)
                 is_default = "default_ignore_list" in a0 and not isinstance(a, ast.BoolOp)
@@ -486,9 +486,13 @@ def refine_templates(p, report, pr, mdoc, lemma_ignore):
             for c in el.children:
                 if isinstance(c, Opt) and _is_ignore_spec(p, c.guard):
                     for it in c.items:
-                        if isinstance(it, Rep) and norm(_strip_length_preserving(it.loop.iter)).endswith(".get_pattern_list()"):
+                        if isinstance(it, Rep) and norm(_strip_length_preserving(_resolve_iter(it.func, it.loop.iter))).endswith(".get_pattern_list()"):
                             it.nonempty = True
                         new.append(it)
+                elif isinstance(c, Rep) and norm(_strip_length_preserving(_resolve_iter(c.func, c.loop.iter))).endswith(".get_pattern_list()"):
+                    # `for p in (spec.get_pattern_list() if spec else [])`: the same loop with the presence test folded into the iterable
+                    c.nonempty = True
+                    new.append(c)
                 else:
                     new.append(c)
             el.children = new
@@ -583,6 +587,12 @@ def _is_ignore_spec(p, guard):
 def allowed_transient(p, tname):
     # 'new' is rewritten to 'verified' before serialisation (R11.6)
     return {"new"} if tname == "ActionAttributeType" else set()
+
+
+def _resolve_iter(f, e):
+    from .common import resolve_local_iterable
+
+    return resolve_local_iterable(f, e)
 
 
 def _positional_inserts(report, p):
